@@ -4,6 +4,8 @@ import (
 	"bytes"
 	"encoding/json"
 	"fmt"
+	"go/parser"
+	"go/token"
 	"os"
 	"os/exec"
 	"path/filepath"
@@ -160,6 +162,12 @@ func checkFrame(f *gen.ProgFunc, cl *stack.Call) string {
 	return ""
 }
 
+// srcParses tells whether the file on disk is syntactically valid Go.
+func srcParses(p string) bool {
+	_, err := parser.ParseFile(token.NewFileSet(), p, nil, 0)
+	return err == nil
+}
+
 func c19Opts(goroot string, analyze bool) *stack.Opts {
 	return &stack.Opts{LocalGOROOT: goroot, LocalGOPATHs: []string{filepath.Join(os.Getenv("VERIF_WORK"), "nogopath")}, GuessPaths: true, AnalyzeSources: analyze}
 }
@@ -255,6 +263,9 @@ func c19Eval(r *core.Run, c *c19Case) {
 					r.Mark("kinds_checked", pp.Kind)
 				}
 			case "delete", "truncate", "syntax", "directory", "symlink", "empty":
+				if c.Mismatch == "truncate" && srcParses(src) {
+					break // the cut happened to fall on a declaration boundary: a valid, shorter file
+				}
 				if len(cl.Args.Processed) != 0 {
 					report("augmented-without-source", fmt.Sprintf("frame %s carries a typed rendering %q although its source is %s", cl.Func.Name, cl.Args.Processed, c.Mismatch))
 					return
